@@ -93,6 +93,8 @@ pub fn blocks(thorough: bool) -> Vec<Block> {
         b.push(Block::new(Universe::new("U_adv(A_gc)", A_GC, 2, 2, true), vec![Cfg::new(E), Cfg::new(X | G | E), Cfg::new(G | R)], "e, x+g+e, g+r"));
         b.push(Block::new(Universe::new("U_abc2{a,b,c}", &["a", "b", "c"], 2, 3, true), pres(&bases8), "7 subsets x 8 bases {{},i,r,d,S,na,ne,na+ne}"));
         b.push(Block::new(Universe::new("U_adv(A_ws)", &ws, 1, 3, false), pres(&[0, I, NA | NE]), "7 subsets x {{}, i, na+ne}"));
+        b.push(Block::new(Universe::new("U_adv(A_cons)", A_CONS, 1, 3, false), pres(&[0]), "7 subsets"));
+        b.push(Block::new(Universe::new("U_adv(A_gcm)", A_GCM, 3, 1, false), pres(&[0, R]), "7 subsets x {{}, r}"));
     } else {
         let b2: Vec<u32> = lattice_le(0, ALL_BITS & !(X | G | E | U | C), 2).iter().map(|c| c.bits).collect();
         b.push(Block::new(Universe::new("U_ab3{a,b}", &["a", "b"], 3, 0, true), pres(&bases8), "7 subsets x 8 bases"));
@@ -102,6 +104,9 @@ pub fn blocks(thorough: bool) -> Vec<Block> {
         b.push(Block::new(Universe::new("U_adv(A_gc)", A_GC, 2, 2, true), pres(&bases8), "7 subsets x 8 bases"));
         b.push(Block::new(Universe::new("U_abc2{a,b,c}", &["a", "b", "c"], 2, 0, true), pres(&b2), "7 subsets x Lambda<=2 bases"));
         b.push(Block::new(Universe::new("U_adv(A_ws)", &ws, 1, 3, false), pres(&b2), "7 subsets x Lambda<=2 bases"));
+        b.push(Block::new(Universe::new("U_adv(A_cons)", A_CONS, 1, 4, false), pres(&bases8), "7 subsets x 8 bases"));
+        b.push(Block::new(Universe::new("U_adv(A_gcm)", A_GCM, 3, 1, false), pres(&bases8), "7 subsets x 8 bases"));
+        b.push(Block::new(Universe::new("U_adv(A_gcm)", A_GCM, 2, 2, false), pres(&[0, R]), "7 subsets x {{}, r}"));
     }
     b
 }
